@@ -104,6 +104,25 @@ func (g *Gen) Lines(e Event) Group {
 		gr.Lines = []string{fmt.Sprintf("type=CRED_DISP msg=%s: pid=%d uid=0 auid=1000%s msg='op=PAM:setcred grantors=pam_permit acct=\"%s\" exe=\"/usr/sbin/sshd\" hostname=127.0.0.1 addr=127.0.0.1 terminal=ssh%s'",
 			st, 3000+e.Tag, sesField(e.Sess), user, g.resUser(e.Res))}
 	default:
+		if !e.Args && e.Tag%6 == 4 {
+			// a compound event whose FIRST record is not the SYSCALL record (auditctl -w: CONFIG_CHANGE + SYSCALL +
+			// PROCTITLE): the summary comes from the records in the order the kernel wrote them
+			succ := ""
+			switch e.Res {
+			case "success":
+				succ = " success=yes exit=1072"
+			case "fail":
+				succ = " success=no exit=-1"
+			}
+			gr.Shape = "CONFIG_CHANGE+SYSCALL"
+			gr.Lines = []string{
+				fmt.Sprintf("type=CONFIG_CHANGE msg=%s: auid=1000%s op=add_rule key=\"watch-%d\" list=4 res=1", st, sesField(e.Sess), e.Tag),
+				fmt.Sprintf("type=SYSCALL msg=%s: arch=c000003e syscall=44%s a0=3 a1=7ffd1c2b3a40 a2=430 a3=0 items=0 ppid=%d pid=%d auid=1000 uid=0 gid=0 euid=0 suid=0 fsuid=0 egid=0 sgid=0 fsgid=0 tty=pts0%s comm=\"auditctl\" exe=\"/usr/sbin/auditctl\" key=(null)",
+					st, succ, 2000+e.Tag, 4000+e.Tag, sesField(e.Sess)),
+				fmt.Sprintf("type=PROCTITLE msg=%s: proctitle=617564697463746C002D77002F6574632F706173737764", st),
+			}
+			return gr
+		}
 		if e.Args || g.R.Intn(3) == 0 {
 			// compound event: SYSCALL [+ EXECVE] + CWD + PATH + PROCTITLE
 			succ := ""
